@@ -42,6 +42,27 @@ def drive_c18(sess, rnd, cfg, record):
             tb = O.Table(r[1])
         else:
             break
+        if m.sys_phases and R.chance(0.3):
+            # an idle phase: everything directly below one source is switched
+            # off in one phase, so a battery there sees exactly zero current
+            src = R.pick(m.sources())
+            phs = list(m.sys_phases.keys())
+            off = R.pick(phs)
+            others = [p for p in phs if p != off]
+            for c in m.children(src):
+                k = m.kind(c)
+                if k in ("Converter", "LinReg", "PSwitch", "PMux"):
+                    yield _emit(record, {"op": "set_comp_phases", "name": c, "conf": others})
+                elif k in LOADS and k != "RLoad":
+                    base = abs(m.comps[c]["p"]["pwr" if k == "PLoad" else "ii"])
+                    conf = {p: base for p in others}
+                    conf[off] = 0.0
+                    yield _emit(record, {"op": "set_comp_phases", "name": c, "conf": conf})
+            m = sess.model
+            r = sess._guard(lambda: sess.sut.solve(**OBS_KW))
+            if r[0] != "ok":
+                break
+            tb = O.Table(r[1])
         if R.chance(0.12):
             op = g.op_batt_nonsource(m)
         else:
